@@ -262,7 +262,7 @@ pub fn run(only: &[String]) -> Vec<String> {
                 if let Err(e) = observe(what, &mut h, &desc) { report(e, &mut fails); break; }
             }
         }
-        let seeds: u64 = if deep { 2000 } else { 150 };
+        let seeds: u64 = if deep { verif_scale(2000) } else { 150 };
         for seed in 1..=seeds {
             let mut r = Rng(seed.wrapping_mul(0x9E3779B97F4A7C15).wrapping_add(1));
             let t = term(&mut r, 3, 3);
@@ -280,7 +280,7 @@ pub fn run(only: &[String]) -> Vec<String> {
         }
         // union histories: 6 terms, some of them slot-permuted copies of earlier ones or pairs of such copies under one
         // node, 8 unions between the top-level handles
-        let useeds: u64 = if deep { 2000 } else { 100 };
+        let useeds: u64 = if deep { verif_scale(2000) } else { 100 };
         for seed in 1..=useeds {
             let mut r = Rng(seed.wrapping_mul(0xD1B54A32D192ED03).wrapping_add(7));
             let mut adds: Vec<String> = Vec::new();
